@@ -898,6 +898,11 @@ func AddColumns(ctx context.Context, scope *ReferenceScope, query parser.AddColu
 	view.Header = header
 	view.RecordSet = records
 
+	if view.FileInfo.Format == option.FIXED && !view.FileInfo.SingleLine && view.FileInfo.DelimiterPositions != nil {
+		// The delimiter positions the table was read with do not cover the added fields: measure them again on writing.
+		view.FileInfo.DelimiterPositions = nil
+	}
+
 	if view.FileInfo.IsInMemoryTable() {
 		scope.ReplaceTemporaryTable(view)
 	} else if view.FileInfo.IsFile() {
